@@ -1575,6 +1575,12 @@ def hostile_texts(run):
             else:
                 m = s[:i] + r.choice(toks) + s[i + r.randrange(1, 4):]
             out.append(m)
+    # systematic: every single-token edit of every declaration form (quick: substitutions, deletions
+    # and glued insertions; thorough: plain insertions too)
+    kinds = ("sub", "del", "glue") if run.tier == "quick" else ("sub", "del", "ins", "glue")
+    edits = sorted(set(specgen.single_edits(kinds=kinds)))
+    run.cov["systematic_single_token_edits"] = len(edits)
+    out += edits
     return out
 
 
